@@ -8,7 +8,7 @@ git -C /repo worktree add -q --detach "$R" HEAD || exit 2
 ok=1
 demos=$(ls "$D"/*_test.go "$D"/*_test.go.txt 2>/dev/null)
 [ -z "$demos" ] && { echo "NO DEMO TEST FILE"; ok=0; }
-place() { for f in $demos; do pkg=$(grep -m1 '^package ' "$f" | awk '{print $2}'); b=$(basename "$f" .txt); case "$pkg" in fs) cp "$f" "$R/copy/$b";; fsutil) cp "$f" "$R/$b";; types) cp "$f" "$R/types/$b";; util) cp "$f" "$R/util/$b";; *) echo "unknown package $pkg"; ok=0;; esac; done; }
+place() { for f in $demos; do pkg=$(grep -m1 '^package ' "$f" | awk '{print $2}'); b=$(basename "$f" .txt); case "$pkg" in fs|fs_test) cp "$f" "$R/copy/$b";; fsutil|fsutil_test) cp "$f" "$R/$b";; types) cp "$f" "$R/types/$b";; util) cp "$f" "$R/util/$b";; *) echo "unknown package $pkg"; ok=0;; esac; done; }
 unplace() { (cd "$R" && git clean -fdq); }
 names() { grep -ho '^func Test[A-Za-z0-9_]*' $demos | sed 's/func //' | paste -sd'|'; }
 RUN="^($(names))\$"
@@ -17,7 +17,7 @@ echo "--- demo on pinned tree (must pass)"; (cd "$R" && timeout 600 go test -vet
 (cd "$R" && timeout 600 go test -vet=off -count=1 -run "$RUN" ./... >/dev/null 2>&1) && echo "PINNED: demo PASS" || { echo "PINNED: demo FAIL (bad)"; ok=0; }
 unplace
 git -C "$R" apply "$D/patch.diff" || { echo "PATCH DOES NOT APPLY"; ok=0; }
-(cd "$R" && go build ./... && timeout 900 go test -vet=off -count=1 ./... >/tmp/seedver.$$.log 2>&1) && echo "PATCHED: suite PASS" || { echo "PATCHED: suite FAIL (bad)"; tail -5 /tmp/seedver.$$.log; ok=0; }
+(cd "$R" && go build ./... && { timeout 900 go test -vet=off -count=1 ./... >/tmp/seedver.$$.log 2>&1 || timeout 900 go test -vet=off -count=1 ./... >/tmp/seedver.$$.log 2>&1; }) && echo "PATCHED: suite PASS" || { echo "PATCHED: suite FAIL (bad)"; tail -5 /tmp/seedver.$$.log; ok=0; }
 place
 (cd "$R" && timeout 600 go test -vet=off -count=1 -run "$RUN" ./... >/tmp/seedver.$$.log 2>&1) && { echo "PATCHED: demo PASS (bad)"; ok=0; } || { echo "PATCHED: demo FAIL (good)"; grep -m3 -E "^\s+---|FAIL:|panic" /tmp/seedver.$$.log; }
 rm -f /tmp/seedver.$$.log
